@@ -1671,6 +1671,8 @@ int QSexact_solver (mpq_QSdata * p_mpq,
 		switch (*status)
 		{
 		case QS_LP_OPTIMAL:
+			/* a basis kept from a previous level that was not re-used is released */
+			mpq_QSfree_basis (basis);
 			basis = mpf_QSget_basis (p_mpf);
 			x_mpf = mpf_EGlpNumAllocArray (p_mpf->qslp->ncols);
 			y_mpf = mpf_EGlpNumAllocArray (p_mpf->qslp->nrows);
@@ -1722,6 +1724,7 @@ int QSexact_solver (mpq_QSdata * p_mpq,
 			else
 			{
 				MESSAGE (msg_lvl, "Retesting solution in exact arithmetic");
+				mpq_QSfree_basis (basis);
 				basis = mpf_QSget_basis (p_mpf);
 				EGcallD(QSexact_basis_status (p_mpq, status, basis, msg_lvl, &simplexalgo));
 #if 0
